@@ -276,7 +276,8 @@ def task_long(params, rec):
     install(rec, model)
     rnd = random.Random(f"c07-long-{params['seed']}-{params['shard']}")
     ctx = fa.Context(paths=[fa.algorithms])
-    hot = [ctx.symbol(f"h{i}", "float64") for i in range(8)]
+    nhot = 8 if params["shard"] % 2 == 0 else 16
+    hot = [ctx.symbol(f"h{i}", "float64") for i in range(nhot)]
     kinds = ["add", "multiply", "subtract", "atan2"]
     f = ctx.symbol("f", "float64")
     total = params["n"]
@@ -284,15 +285,15 @@ def task_long(params, rec):
     try:
         while len(ctx._expressions) < total:
             f = Expr(ctx, "negative" if i % 2 else "absolute", (f,)) if i % 7 else Expr(ctx, "sqrt", (Expr(ctx, "square", (f,)),))
-            a1 = Expr(ctx, kinds[i % 2], (hot[i % 8], f))
-            a2 = Expr(ctx, kinds[i % 2], (f, hot[(i + 3) % 8]))
+            a1 = Expr(ctx, kinds[i % 2], (hot[i % nhot], f))
+            a2 = Expr(ctx, kinds[i % 2], (f, hot[(i + 3) % nhot]))
             # the key of a node is built from its operands' (kind, operand indices): put the late nodes one level down as well
             Expr(ctx, "sqrt", (a1,))
             Expr(ctx, "exp", (a2,))
             if i % 3 == 0:
                 Expr(ctx, kinds[2 + i % 2], (a1, a2))
             if i % 5 == 0:
-                Expr(ctx, "select", (Expr(ctx, "lt", (hot[i % 3], f)), a1, hot[(i // 5) % 8]))
+                Expr(ctx, "select", (Expr(ctx, "lt", (hot[i % 3], f)), a1, hot[(i // 5) % nhot]))
             if i % 11 == 0:
                 Expr(ctx, kinds[2 + i % 2], (f, f))
             i += 1
@@ -427,14 +428,14 @@ TASKS = {"histories": task_histories, "e2e": task_e2e, "shipped": task_shipped, 
 
 def plan(tier, seed):
     if tier == "quick":
-        t = [("histories", dict(seed=seed, shard=s, histories=60, n=300)) for s in range(8)]
+        t = [("histories", dict(seed=seed, shard=s, histories=150, n=300)) for s in range(10)]
         t += [("e2e", dict(seed=seed, shard=s, histories=250)) for s in range(3)]
-        t += [("long", dict(seed=seed, shard=0, n=(1 << 17) + 30000))]
+        t += [("long", dict(seed=seed, shard=s, n=(1 << 17) + 30000)) for s in range(2)]
     else:
         t = [("histories", dict(seed=seed, shard=s, histories=400, n=800)) for s in range(10)]
         t += [("histories", dict(seed=seed, shard=100 + s, histories=6, n=30000)) for s in range(2)]
         t += [("e2e", dict(seed=seed, shard=s, histories=5000)) for s in range(4)]
-        t += [("long", dict(seed=seed, shard=0, n=(1 << 17) + 30000)), ("long", dict(seed=seed, shard=1, n=(1 << 20) + 200000))]
+        t += [("long", dict(seed=seed, shard=s, n=(1 << 17) + 30000)) for s in range(2)] + [("long", dict(seed=seed, shard=2 + s, n=(1 << 20) + 200000)) for s in range(2)]
     t += [("shipped", dict(shard=s, nshards=5)) for s in range(5)]
     return t
 
